@@ -41,7 +41,8 @@ def lib():
             self.cls = [(j + tag) % 3 for j in range(n)]
             self.disposed = 0
             self.marker = f"marker{tag}"
-            self._split = f"split{tag}"  # a 'private' attribute of the root: reachable through every chain like a public one
+            self._split = f"split{tag}"
+            self.dataset = ("backing store", tag)  # roots backed by a torch dataset keep it in an attribute of this name  # a 'private' attribute of the root: reachable through every chain like a public one
 
         def __len__(self):
             return self.n
